@@ -272,6 +272,21 @@ Proof.
   lia.
 Qed.
 
+(* ExtractMatches never panics, whatever the message (the height loop cannot run out of fuel: the
+   uint32 width is 0 from height 32 on; all indexing is guarded) *)
+Theorem extract_no_panic maxtx m : is_panic (extract maxtx m) = false.
+Proof.
+  unfold Merkle.extract. rewrite extract_full_eq. unfold new_from_msg. cbn [pb_numTx pb_hashes pb_bits]. cbv zeta.
+  destruct (_ =? 0); [reflexivity|].
+  destruct (maxtx <? _); [reflexivity|].
+  destruct (_ <? u32 _); [reflexivity|].
+  destruct (u32 _ <? u32 _); [reflexivity|].
+  destruct (height_loop_terminates (m_transactions m) height_fuel 0) as (r & Hr & _);
+    [unfold height_fuel; cbn; lia|lia|].
+  rewrite Hr. destruct (TE _ _ _ _ _ _) as [root s].
+  destruct (x_bad s); [reflexivity|]. destruct (negb _); [reflexivity|]. destruct (negb _); reflexivity.
+Qed.
+
 (* recursion depth = height + 1, and the height is logarithmic in the accepted transaction count *)
 Theorem extract_depth maxtx n k :
   maxtx < 2 ^ 31 -> n <= maxtx -> maxtx <= 2 ^ N.of_nat k ->
@@ -280,5 +295,11 @@ Proof.
   intros Hmax Hn Hk. destruct (calc_height_ok n ltac:(lia)) as (H & HH & _ & Hheight).
   exists H. split; [exact HH|]. eapply is_height_le; eauto. lia.
 Qed.
+
+Theorem extract_cost_depth maxtx m :
+  (extract_calls node_hash maxtx m <= 2 * (8 * length (m_flags m)) + 1)%nat /\
+  (forall n k, maxtx < 2 ^ 31 -> n <= maxtx -> maxtx <= 2 ^ N.of_nat k ->
+     exists H : nat, height_loop (pb_tree_width n) 1 height_fuel 0 = Ok (N.of_nat H) /\ (H <= k)%nat).
+Proof. split; [apply extract_cost|intros n k; apply extract_depth]. Qed.
 
 End WithNodeHash.
